@@ -129,7 +129,10 @@ def spec_query_words(kind, q, bond=None):
     if kind == 'M':
         nonmetal = sorted(Q.NONMETALS)
         w1 = sum(1 << (57 - z) for z in range(1, 57) if z not in nonmetal) | 1
-        w2 = sum(1 << (120 - min(z, 116)) for z in range(57, 119) if z not in nonmetal)
+        w2 = 0
+        for z in range(57, 119):
+            if z not in nonmetal:
+                w2 |= 1 << (120 - min(z, 116))
         w3 = _c(sum(1 << k for k in range(30, 64)) | FIELD_ANY['het'])        # isotope, radical, charge, hydrogens, heteroatoms ignored
         w1, w2, w4 = _c(w1), _c(w2), _c(M64)
     else:
@@ -210,6 +213,9 @@ def _dom_layout(dom, q, a, kind, h_max=4, ring_max=65, merge_ok=False):
         dom.append(z3.Implies(bv(q.atomic_number) == bv(a.atomic_number), bv(q.mdl_isotope) == bv(a.mdl_isotope)))   # mdl_isotope is a function of Z
         if not merge_ok:
             dom.append(z3.Not(z3.And(bv(q.atomic_number) >= 116, bv(a.atomic_number) >= 116, bv(q.atomic_number) != bv(a.atomic_number))))
+    if kind == 'L' and q is not None and not merge_ok and isinstance(a.atomic_number, SymInt):
+        s = q.__dict__['atomic_numbers']      # Lv, Ts, Og share one bit: lists must not separate them when the atom is one of them
+        dom.append(z3.Or(bv(a.atomic_number) < 116, z3.And(s.m[116] == s.m[117], s.m[117] == s.m[118])))
     if a._implicit_hydrogens is not None:
         dom.append(a._implicit_hydrogens.z <= h_max)
     for s in [a._ring_sizes] + ([q._ring_sizes] if q is not None and isinstance(getattr(q, '_ring_sizes', None), SymSmallSet) else []):
@@ -347,13 +353,13 @@ def replay_pair(kind, model, qiso, aiso, ah, ring_mode):
     a._charge, a._is_radical = g('a_ch', 0), bool(g('a_rad', False))
     a._implicit_hydrogens = None if ah is None else g('a_h', 0)
     a._neighbors, a._heteroatoms, a._hybridization = g('a_nb', 0), g('a_het', 0), g('a_hyb', 1)
-    a._isotope = None if aiso is None else g('a_iso', 1)
+    a._isotope = None if aiso is None else a.mdl_isotope + (g('a_iso', 1) - g('a_mdl', 1))
     a._ring_sizes = {k for k in RING_U9 if g(f'ar_{k}', False)}
     a._in_ring = bool(a._ring_sizes)
     sets = {p: tuple(k for k in u if g(f'q{p}_{k}', False)) for p, u in (('n', range(15)), ('y', range(1, 5)), ('x', range(15)), ('h', range(15)))}
     if kind == 'Q':
         q = object.__new__(QueryElement.from_atomic_number(g('q_Z', 6)))
-        q._isotope = None if qiso is None else g('q_iso', 0)
+        q._isotope = None if qiso is None else (0 if g('q_iso', 0) == 0 else q.mdl_isotope + (g('q_iso', 0) - g('q_mdl', 1)))
     elif kind == 'A':
         q = object.__new__(AnyElement)
     else:
